@@ -333,6 +333,9 @@ def _dump_single_output(
     output: Any,
     store: dict[str, StoreType],
 ) -> tuple[Any, ...]:
+    if isinstance(output, _StoredOutputs):
+        # Loaded from a previous run: already picked per output name and already stored
+        return tuple(output)
     if isinstance(func.output_name, tuple):
         new_output = []  # output in same order as func.output_name
         for output_name in func.output_name:
@@ -742,6 +745,12 @@ class _StoredValue(NamedTuple):
     exists: bool
 
 
+class _StoredOutputs(tuple):
+    """The outputs of a function (one per output name) as loaded from a previous run."""
+
+    __slots__ = ()
+
+
 def _load_from_store(
     output_name: OUTPUT_TYPE,
     store: dict[str, StoreType],
@@ -786,7 +795,9 @@ def _execute_single(
     # Load the output if it exists
     output, exists = _load_from_store(func.output_name, store, return_output=True)
     if exists:
-        return output
+        # Mark as already stored such that `func.output_picker` (which expects what the
+        # function returns) is not applied to it again.
+        return _StoredOutputs(output if isinstance(func.output_name, tuple) else (output,))
 
     # Otherwise, run the function
     _load_arrays(kwargs)
